@@ -130,6 +130,11 @@ func TestVerif_C10_exec(t *testing.T) {
 			sources = append(sources, ch)
 			fChain[ch] = 1
 		}
+		if r.Chance(1, 3) {
+			// a chain whose f is 0 (threshold f+1 = 1): every observed variant of an item is valid at once, so the order in
+			// which valid items are handed on matters most here (seeded change C10-8 short-cut GetValid for thresholds <= 1)
+			fChain[sources[0]] = 0
+		}
 		// ground truth: per source 1..3 commit reports of 1..3 messages
 		type rep struct {
 			cd   exectypes.CommitData
